@@ -55,6 +55,8 @@ pub trait Calc: AbsVal + 'static {
     const NDERIV: usize;
     fn zero() -> Self;
     fn show(&self) -> String;
+    /// Display under one of the format specs of Render.tla (None: a spec this harness does not know)
+    fn show_spec(&self, spec: &str) -> Option<String>;
     /// registers are 1-based in events
     fn apply(regs: &[Self], ev: &Ev) -> Result<Out<Self>, String>;
     /// FromPrimitive entry point `name` on sign * 2^e + o: (what the type returns, what the scalar
@@ -106,6 +108,17 @@ macro_rules! impl_calc {
             }
             fn show(&self) -> String {
                 format!("{}", self)
+            }
+            fn show_spec(&self, spec: &str) -> Option<String> {
+                Some(match spec {
+                    "{}" => format!("{}", self),
+                    "{:.2}" => format!("{:.2}", self),
+                    "{:>40}" => format!("{:>40}", self),
+                    "{:<40.1}" => format!("{:<40.1}", self),
+                    "{:^9.0}" => format!("{:^9.0}", self),
+                    "{:012.3}" => format!("{:012.3}", self),
+                    _ => return None,
+                })
             }
             fn from_prim(name: &str, sign: i32, e: u32, o: i64) -> Option<(Option<Self>, Option<f64>)> {
                 use num_traits::FromPrimitive as FP;
